@@ -1,27 +1,30 @@
 theories/Spec/BV.vo theories/Spec/BV.glob theories/Spec/BV.v.beautified theories/Spec/BV.required_vo: theories/Spec/BV.v 
 theories/Spec/BV.vio: theories/Spec/BV.v 
 theories/Spec/BV.vos theories/Spec/BV.vok theories/Spec/BV.required_vos: theories/Spec/BV.v 
-theories/Model/Expr.vo theories/Model/Expr.glob theories/Model/Expr.v.beautified theories/Model/Expr.required_vo: theories/Model/Expr.v theories/Spec/BV.vo
-theories/Model/Expr.vio: theories/Model/Expr.v theories/Spec/BV.vio
-theories/Model/Expr.vos theories/Model/Expr.vok theories/Model/Expr.required_vos: theories/Model/Expr.v theories/Spec/BV.vos
 theories/Spec/Eval.vo theories/Spec/Eval.glob theories/Spec/Eval.v.beautified theories/Spec/Eval.required_vo: theories/Spec/Eval.v theories/Model/Expr.vo
 theories/Spec/Eval.vio: theories/Spec/Eval.v theories/Model/Expr.vio
 theories/Spec/Eval.vos theories/Spec/Eval.vok theories/Spec/Eval.required_vos: theories/Spec/Eval.v theories/Model/Expr.vos
+theories/Spec/System.vo theories/Spec/System.glob theories/Spec/System.v.beautified theories/Spec/System.required_vo: theories/Spec/System.v theories/Spec/Eval.vo
+theories/Spec/System.vio: theories/Spec/System.v theories/Spec/Eval.vio
+theories/Spec/System.vos theories/Spec/System.vok theories/Spec/System.required_vos: theories/Spec/System.v theories/Spec/Eval.vos
 theories/Model/EvalImpl.vo theories/Model/EvalImpl.glob theories/Model/EvalImpl.v.beautified theories/Model/EvalImpl.required_vo: theories/Model/EvalImpl.v theories/Spec/Eval.vo
 theories/Model/EvalImpl.vio: theories/Model/EvalImpl.v theories/Spec/Eval.vio
 theories/Model/EvalImpl.vos theories/Model/EvalImpl.vok theories/Model/EvalImpl.required_vos: theories/Model/EvalImpl.v theories/Spec/Eval.vos
+theories/Model/Expr.vo theories/Model/Expr.glob theories/Model/Expr.v.beautified theories/Model/Expr.required_vo: theories/Model/Expr.v theories/Spec/BV.vo
+theories/Model/Expr.vio: theories/Model/Expr.v theories/Spec/BV.vio
+theories/Model/Expr.vos theories/Model/Expr.vok theories/Model/Expr.required_vos: theories/Model/Expr.v theories/Spec/BV.vos
 theories/Proofs/BVLemmas.vo theories/Proofs/BVLemmas.glob theories/Proofs/BVLemmas.v.beautified theories/Proofs/BVLemmas.required_vo: theories/Proofs/BVLemmas.v theories/Spec/BV.vo
 theories/Proofs/BVLemmas.vio: theories/Proofs/BVLemmas.v theories/Spec/BV.vio
 theories/Proofs/BVLemmas.vos theories/Proofs/BVLemmas.vok theories/Proofs/BVLemmas.required_vos: theories/Proofs/BVLemmas.v theories/Spec/BV.vos
-theories/Proofs/ExprLemmas.vo theories/Proofs/ExprLemmas.glob theories/Proofs/ExprLemmas.v.beautified theories/Proofs/ExprLemmas.required_vo: theories/Proofs/ExprLemmas.v theories/Model/Expr.vo
-theories/Proofs/ExprLemmas.vio: theories/Proofs/ExprLemmas.v theories/Model/Expr.vio
-theories/Proofs/ExprLemmas.vos theories/Proofs/ExprLemmas.vok theories/Proofs/ExprLemmas.required_vos: theories/Proofs/ExprLemmas.v theories/Model/Expr.vos
-theories/Proofs/EvalProofs.vo theories/Proofs/EvalProofs.glob theories/Proofs/EvalProofs.v.beautified theories/Proofs/EvalProofs.required_vo: theories/Proofs/EvalProofs.v theories/Spec/Eval.vo theories/Model/EvalImpl.vo theories/Proofs/BVLemmas.vo theories/Proofs/ExprLemmas.vo
-theories/Proofs/EvalProofs.vio: theories/Proofs/EvalProofs.v theories/Spec/Eval.vio theories/Model/EvalImpl.vio theories/Proofs/BVLemmas.vio theories/Proofs/ExprLemmas.vio
-theories/Proofs/EvalProofs.vos theories/Proofs/EvalProofs.vok theories/Proofs/EvalProofs.required_vos: theories/Proofs/EvalProofs.v theories/Spec/Eval.vos theories/Model/EvalImpl.vos theories/Proofs/BVLemmas.vos theories/Proofs/ExprLemmas.vos
 theories/Proofs/EvalImplProofs.vo theories/Proofs/EvalImplProofs.glob theories/Proofs/EvalImplProofs.v.beautified theories/Proofs/EvalImplProofs.required_vo: theories/Proofs/EvalImplProofs.v theories/Model/EvalImpl.vo theories/Proofs/ExprLemmas.vo
 theories/Proofs/EvalImplProofs.vio: theories/Proofs/EvalImplProofs.v theories/Model/EvalImpl.vio theories/Proofs/ExprLemmas.vio
 theories/Proofs/EvalImplProofs.vos theories/Proofs/EvalImplProofs.vok theories/Proofs/EvalImplProofs.required_vos: theories/Proofs/EvalImplProofs.v theories/Model/EvalImpl.vos theories/Proofs/ExprLemmas.vos
+theories/Proofs/EvalProofs.vo theories/Proofs/EvalProofs.glob theories/Proofs/EvalProofs.v.beautified theories/Proofs/EvalProofs.required_vo: theories/Proofs/EvalProofs.v theories/Spec/Eval.vo theories/Model/EvalImpl.vo theories/Proofs/BVLemmas.vo theories/Proofs/ExprLemmas.vo
+theories/Proofs/EvalProofs.vio: theories/Proofs/EvalProofs.v theories/Spec/Eval.vio theories/Model/EvalImpl.vio theories/Proofs/BVLemmas.vio theories/Proofs/ExprLemmas.vio
+theories/Proofs/EvalProofs.vos theories/Proofs/EvalProofs.vok theories/Proofs/EvalProofs.required_vos: theories/Proofs/EvalProofs.v theories/Spec/Eval.vos theories/Model/EvalImpl.vos theories/Proofs/BVLemmas.vos theories/Proofs/ExprLemmas.vos
+theories/Proofs/ExprLemmas.vo theories/Proofs/ExprLemmas.glob theories/Proofs/ExprLemmas.v.beautified theories/Proofs/ExprLemmas.required_vo: theories/Proofs/ExprLemmas.v theories/Model/Expr.vo
+theories/Proofs/ExprLemmas.vio: theories/Proofs/ExprLemmas.v theories/Model/Expr.vio
+theories/Proofs/ExprLemmas.vos theories/Proofs/ExprLemmas.vok theories/Proofs/ExprLemmas.required_vos: theories/Proofs/ExprLemmas.v theories/Model/Expr.vos
 theories/Props/C06.vo theories/Props/C06.glob theories/Props/C06.v.beautified theories/Props/C06.required_vo: theories/Props/C06.v theories/Model/EvalImpl.vo theories/Proofs/EvalProofs.vo theories/Proofs/EvalImplProofs.vo
 theories/Props/C06.vio: theories/Props/C06.v theories/Model/EvalImpl.vio theories/Proofs/EvalProofs.vio theories/Proofs/EvalImplProofs.vio
 theories/Props/C06.vos theories/Props/C06.vok theories/Props/C06.required_vos: theories/Props/C06.v theories/Model/EvalImpl.vos theories/Proofs/EvalProofs.vos theories/Proofs/EvalImplProofs.vos
